@@ -3,13 +3,17 @@
 //! [`HashMap::entry`]: std::collections::HashMap::entry
 //! [`StateRegistry`]: crate::StateRegistry
 
+#[cfg(not(any(kani, mahf_verif)))]
+use std::collections::hash_map;
 use std::{
     any::TypeId,
     cell::{Ref, RefCell, RefMut},
-    collections::hash_map,
     marker::PhantomData,
     ops::DerefMut,
 };
+
+#[cfg(any(kani, mahf_verif))]
+use super::kmap as hash_map;
 
 use better_any::TidExt;
 
